@@ -105,4 +105,6 @@ def run(ctx, chk):
         # numeric order of storage is colex only for canonical storage and the documented packing: imported rows
         core.import_rows(chk, cfg, "C09", "props.C09", ("I-canon", "R24", "G22", "I-width2", "R23"))
         core.import_rows(chk, cfg, "C04", "props.C04", ("I-endian", "I-order", "S-kmer-int"))
+        # "the minimum over a sequence's k-mers is its minimiser": min()/max()/fold run over KmerIter, whose rows are imported
+        core.import_rows(chk, cfg, "C08", "props.C08", ("G05", "I-override"))
     chk.floor("comparator rows", n, 4 * len(chk.configs))
